@@ -372,7 +372,12 @@ impl GrandState {
             EnterSubshellOption::ClearInternalDisposition => new_setting,
             EnterSubshellOption::Ignore => Disposition::Ignore,
         };
-        if old_disposition != new_disposition
+        // With the `Ignore` option the signal has been blocked while the
+        // subshell was started, and setting the disposition is what unblocks
+        // it: do that for a signal that is ignored already, too.
+        let unblocks =
+            option == EnterSubshellOption::Ignore && old_disposition == Disposition::Ignore;
+        if (old_disposition != new_disposition || unblocks)
             && let Condition::Signal(signal) = cond
         {
             system.set_disposition(signal, new_disposition).await?;
